@@ -260,7 +260,8 @@ HANDOVER_FIRST = ("        if self._active_segment:\n            self._active_se
 ROLLBACK = ("        except (BadHashError, NotEnoughHashesError, IndexError):\n            for i in remove_upon_failure:\n"
             "                self[i] = None\n            raise\n")
 CATCH = "        except (BadHashError, NotEnoughHashesError, IndexError):\n"
-DO_LOOP_GUARD = "        k = self._k\n        if not self._running:\n            return\n"
+DEAD_BRANCH = "        if state is DEAD:\n            self._last_failure = f\n"
+DO_LOOP_GUARD ="        k = self._k\n        if not self._running:\n            return\n"
 
 MUTANTS += [
     # ---- C03.9 a rejected hash chain leaves the node's shared trees unchanged (C03.9.1 / C03.9.2 adopted from C35)
@@ -324,5 +325,47 @@ MUTANTS += [
       edits=[(FETCH, "    def loop(self):\n        try:\n", "    def loop(self):\n        if not self._running:\n            return\n        try:\n")]),
     M("benign-do-loop-guard-via-local", FETCH, DO_LOOP_GUARD,
       "        k = self._k\n        running = self._running\n        if not running:\n            return\n", None),
+    # ---- C03.12 a share leaves the fetcher's candidate containers only for a reason of its own
+    M("dead-share-forgets-unused-siblings-helper", FETCH, DEAD_BRANCH,          # seeded C03-G
+      DEAD_BRANCH + "            self._forget_unused_shares_from(share._server)\n", "C03.12",
+      edits=[(FETCH, "    def _cancel_all_requests(self):\n",
+              "    def _forget_unused_shares_from(self, server):\n"
+              "        unused = [sh for sh in self._shares if sh._server is server]\n"
+              "        if unused:\n"
+              "            self._shares = [sh for sh in self._shares\n"
+              "                            if sh._server is not server]\n\n"
+              "    def _cancel_all_requests(self):\n")]),
+    M("dead-share-removes-unused-siblings-inline", FETCH, DEAD_BRANCH,
+      DEAD_BRANCH + "            for sh in list(self._shares):\n                if sh._server is share._server:\n"
+      "                    self._shares.remove(sh)\n", "C03.12"),
+    M("corrupt-share-clears-unused-list", FETCH, DEAD_BRANCH,
+      "        if state is CORRUPT:\n            # start over with whatever the finder brings next\n            del self._shares[:]\n"
+      + DEAD_BRANCH, "C03.12"),
+    M("find-share-drops-share-of-active-shnum", FETCH,
+      "            if shnum in self._active_share_map:\n",
+      "            if shnum in self._active_share_map:\n                self._shares.remove(sh)\n", "C03.12"),
+    M("dead-share-drops-active-siblings", FETCH, DEAD_BRANCH,
+      DEAD_BRANCH + "            for other in list(self._active_share_map.values()):\n"
+      "                if other._server is share._server:\n"
+      "                    self._active_share_map.pop(other._shnum, None)\n", "C03.12"),
+    M("dead-share-forgets-overdue-requests", FETCH, DEAD_BRANCH,
+      DEAD_BRANCH + "            self._overdue_share_map.clear()\n", "C03.12"),
+    M("corrupt-share-discards-block", FETCH, DEAD_BRANCH,
+      "        if state is CORRUPT:\n            self._blocks.pop(shnum, None)\n" + DEAD_BRANCH, "C03.12"),
+    M("benign-use-share-filtered-out", FETCH,
+      "            self._shares.remove(sh)\n            self._active_share_map[shnum] = sh\n",
+      "            self._shares = [s for s in self._shares if s is not sh]\n            self._active_share_map[shnum] = sh\n", None),
+    M("benign-add-shares-sorted-copy", FETCH,
+      "        self._shares.extend(shares)\n        self._shares.sort(key=lambda s: (s._dyhb_rtt, s._shnum) )\n",
+      "        self._shares = sorted(self._shares + list(shares), key=lambda s: (s._dyhb_rtt, s._shnum))\n", None),
+    M("benign-use-share-popped-by-index", FETCH,
+      "            self._shares.remove(sh)\n            self._active_share_map[shnum] = sh\n",
+      "            picked = self._shares.pop(self._shares.index(sh))\n            self._active_share_map[shnum] = picked\n", None,
+      edits=[(FETCH, "            self._shares_from_server.add(server, sh)\n            self._start_share(sh, shnum)\n",
+              "            self._shares_from_server.add(server, picked)\n            self._start_share(picked, shnum)\n")]),
+    M("benign-stop-clears-lists", FETCH,
+      "            del self._shares, self._shares_from_server, self._active_share_map\n",
+      "            self._blocks = dict(self._blocks)\n            self._overdue_share_map.clear()\n"
+      "            del self._shares, self._shares_from_server, self._active_share_map\n", None),
     M("vanish-fetcher-stop", FETCH, "    def stop(self):\n        if self._running:\n", "    def shutdown(self):\n        if self._running:\n", "ANALYSIS-ERROR"),
 ]
